@@ -24,6 +24,24 @@ checks = {
  'C16': dict(level='exploration', tech='runtime monitoring: offline pairwise order checker over allocate-action placements of generator-made clone workloads',
    text='Held on N generated clusters containing clone workloads (same template, gang shape, preemptibility, leaf queue) with shuffled priorities and creation times among many competing workloads: allocate never placed a lower-priority or younger clone while leaving a higher-priority or older one unplaced.',
    note='Clones carry no inter-pod affinity and no topology constraint; only clones whose pods are all pending are compared.', ref='4/C16'),
+ 'C09': dict(level='exploration', tech='runtime monitoring: algebraic-law and metamorphic (enumeration-order) oracle over direct calls of the production SetResourcesShare',
+   text='Held on N generated sibling sets and 2-3 level trees (totals incl. 0/fractional, quota incl. unlimited, limits, weights incl. 0, 1-3 priorities, usage, k in {0,0.5,1,10}): laws L1-L8 of the statement (floor, cap, surplus bound, surplus only left when satisfied, priority remainder, weight monotonicity, children within parent, order independence over 5 insertion orders).',
+   note='One rounding unit = 1.0 of the raw quantity; L4/L5 effective weight as computed by the code\'s last round. Known finding (open): L5 cliff for k>0.', ref='4/C09'),
+ 'C13': dict(level='exploration', tech='runtime monitoring: statement lifecycle hooks (build tag verif) + canonical session dump compared after Discard/Rollback; Cache calls of Commit compared with the net effect of the valid operations',
+   text='Held (up to the listed known findings) on every statement the real allocate/consolidation/reclaim/preempt actions and their solvers create in N generated multi-cycle cases: dump before the first operation / at each checkpoint equals the dump after Discard / Rollback; each Commit emits at most one eviction and one placement per pod and nothing for undone steps.',
+   note='A discard/rollback is judged only when no other statement acted in between. Known findings (open): whole-GPU counters / markers of shared-GPU nodes and statements that re-nominate an evicted shared-GPU pod are not restored exactly.', ref='4/C13'),
+ 'C14': dict(level='exploration', tech='runtime monitoring: online monitor plugin recomputing node / workload / pod-set / queue accounting from the pods after every Allocate/Deallocate event, plus rebuild of each node with the system constructor',
+   text='Held (up to the listed known findings) after every simulated step of every action and solver, after OpenSession and after each action in N generated multi-cycle cases: node Idle/Used/Releasing and per-GPU shared memory vs closed forms over PodInfos and vs a node rebuilt with NewNodeInfo+AddTask, workload Allocated / status index / pod-set counters, queue Allocated and AllocatedNotPreemptible, vector == structured.',
+   note='Releasing copies that the scheduler keeps charged without a PodInfos entry are modelled explicitly (both readings accepted when ambiguous); whole-GPU counters compared with the rebuild only when no pipelined/releasing sharer is on the node. Known findings (open): accounting after a shared-GPU pod was evicted and re-nominated in the session.', ref='4/C14'),
+ 'C18': dict(level='exploration', tech='runtime monitoring: metamorphic (reconcile order / multiplicity) and fixpoint (zero mutating calls) oracle over the real PodReconciler on a counting fake client',
+   text='Held on N generated owner chains (22 kinds incl. skip-top-owner) with 1-6 sibling pods: same PodGroup for siblings of documented one-group kinds, per-pod for documented per-pod kinds, identical final PodGroups over 4-5 reconcile orders, zero writes once converged, foreign-owned fields never overwritten.',
+   note='Grouping keys asserted only as documented in docs/developer/pod-grouper.md. Known finding (open): batch Job pods get one PodGroup each although documented as one per Job.', ref='4/C18'),
+ 'C19': dict(level='exploration', tech='runtime monitoring: 3-way differential oracle (admission plugin, scheduler PodInfo, binder bind + ConfigMap) over grammar-generated annotation strings, incl. real scheduler cycle + real binder per case',
+   text='Held on N generated pods (20 000 per quick run): accepted => finite positive quantity that scheduler and binder interpret identically; scheduler-treats-as-sharing and (malformed or sharing disabled) => rejected; Mutate idempotent.',
+   note='Oracle parses annotation values with math/big, not strconv. Fraction equality within 0.005 (2-decimal resolution of the system).', ref='4/C19'),
+ 'C20': dict(level='exploration', tech='runtime monitoring: sum-identity and fixpoint oracle over the real PodGroupReconciler, QueueReconciler and operator operands on a counting fake client with shuffled list order',
+   text='Held on N generated histories: PodGroup status equals sums over pods by phase and current preemptibility (incl. flips), Queue status equals sums over pod groups and children at every level after reconciling in any order, second reconcile / second Deploy performs no mutating call, two fresh stores with the same operator config end identical.',
+   note='No-op write requests are counted but not reported; list order shuffled in half of the cases (informer cache order is a map order). Known finding (open): ServiceAccount imagePullSecrets union keeps removed secrets.', ref='4/C20'),
 }
 not_applicable = {}
 props=[json.loads(l)['id'] for l in open(V+'/properties.jsonl')]
